@@ -147,6 +147,13 @@ static void shm_violation(const std::string &sig, const std::string &replay, con
 // In --replay mode the complete symbolised report is printed.
 static bool g_fastdie = false;
 extern "C" const char *__asan_get_report_description();
+// Defaults under the driver's ASAN_OPTIONS (which does not set these keys): a small quarantine keeps
+// the workers' resident set - and with it the cost of forking a sandbox - small.  The property is
+// about reads past the file buffer (redzones), not about use after free.
+extern "C" const char *__asan_default_options()
+{
+  return "quarantine_size_mb=4:thread_local_quarantine_size_kb=64";
+}
 extern "C" void __asan_on_error()
 {
   if (!g_fastdie)
